@@ -161,6 +161,11 @@ func RunHarness(main *ssa.Package, fnName string) (err interface{}) {
 				// a Go runtime error inside the interpreter models a target runtime panic
 				err = targetPanic{iface{i.runtimeErrorString, p.Error()}}
 			case string:
+				if os.Getenv("ZX_DEBUG") != "" {
+					buf := make([]byte, 1<<14)
+					n := runtime.Stack(buf, false)
+					fmt.Fprintf(os.Stderr, "interpreter panic escaping harness: %v\n%s\n", p, buf[:n])
+				}
 				err = targetPanic{iface{i.runtimeErrorString, p}}
 			default:
 				err = r
